@@ -123,6 +123,14 @@ SOFTWARE, EVEN IF ADVISED OF THE POSSIBILITY OF SUCH DAMAGE.
           yr_compiler_set_error_extra_info( \
               compiler, "wrong type \"boolean\" for " op " operator"); \
           break; \
+        case EXPRESSION_TYPE_REGEXP: \
+          yr_compiler_set_error_extra_info( \
+              compiler, "wrong type \"regexp\" for " op " operator"); \
+          break; \
+        default: \
+          yr_compiler_set_error_extra_info( \
+              compiler, "wrong type for " op " operator"); \
+          break; \
       } \
       cleanup; \
       compiler->last_error = ERROR_WRONG_TYPE; \
